@@ -162,6 +162,7 @@ struct Json {
 
     std::string dump() const;
     static bool parse(const std::string &text, Json &out, std::string *err = nullptr);
+    static bool parse_rfc(const std::string &text, Json &out, std::string *err = nullptr); // \u escapes are code points (for text the library wrote)
 };
 
 // ---------------------------------------------------------------- digest
